@@ -14,3 +14,13 @@ claim("C04", "Closed-form oracles (set size, no excluded eligible validator stri
       "unachievable case) over (a) >=60k/1.5M generated vectors driven through the exported functions of the real keeper and (b) every capped "
       "consumer set stored by the provider in the generated worlds.",
       "runtime oracle over generated inputs to the real functions + online monitor of stored sets", "2/C04")
+claim("C01", "Reference-model monitor at every block of every live consumer chain (real consumer app booted from the provider's genesis, real IBC relay "
+      "with delays, batches and late channel opening): stored and engine-side sets must equal the provider's stored set for the last packet received.",
+      "online reference-model monitor over both chains + wire-level fold of VSC packets", "2/C01")
+claim("C12", "Logical-clock monitor on both chains: id step per epoch, id->height and height->id maps, ids carried by slash requests, heights resolved by the provider, "
+      "error acks for never-issued ids.", "online monitor with shadow clocks over provider and consumer probes", "2/C12")
+claim("C08", "Decision-table oracle for every slash packet (honest downtime detected by the consumers' real x/slashing from missed votes, plus hostile packets from a "
+      "malicious consumer), boundary-call observation of Slash/Jail/JailUntil, equality of all other validators, slash-ack round trip, consumer outstanding flags.",
+      "online decision-table monitor + boundary call observer (decorated keepers) + shadow of owed acknowledgements", "2/C08")
+claim("C09", "Provider meter invariants at every BeginBlock, per-packet admit/bounce and deduction, offline window bound over the recorded meter log; consumer-side "
+      "send/ack automaton and conservation of queued slash packets.", "online invariant monitor + offline checker over the meter log + trace automaton", "2/C09")
